@@ -164,6 +164,13 @@ def enumerate_cases(tier):
             yield "dropna-interior-axis", {"op": "dropna", "spec": {"dims": dims, "labels": labels, "vk": "f", "vals": vals}, "ax": ax, "axis_form": "name" if pat % 2 else "neg", "p": {}}
     for x in _range_perm_cases():
         yield x
+    # labels asked for in the other numeric kind (1.0 for 1, 2 for 2.0): the same slices, the axis' own kind in the result
+    for labs, ind in (([3, 1, 2], [1.0, 3.0]), ([3, 1, 2], [2.0, 2.0, 1.0]), ([2.0, 0.0, 1.0], [1, 2]), ([2.0, 0.0, 1.0], [0, 0]), ([20240101, 20240103], [20240103.0])):
+        for as_ in ("list", "array", "tuple"):
+            for ax, dims in ((0, ["t", "y"]), (1, ["y", "t"])):
+                labels = [list(labs), ["a", "b"]] if ax == 0 else [["a", "b"], list(labs)]
+                yield "take_axis-labels-in-the-other-numeric-kind", {"op": "take_axis", "spec": {"dims": dims, "labels": labels, "vk": "f", "vals": [float(k) + 0.5 for k in range(2 * len(labs))]}, "ax": ax, "axis_form": "name",
+                                                                     "p": {"indexing": "label", "indices": list(ind), "as": as_, "other_kind": True}}
 
 
 def _range_perm_cases():
